@@ -17,7 +17,9 @@ Stateful protocol; a sequence is one pre-state followed by blocks that are ALL a
     `S` = the specification
     mode=post: the pre-state is already at the block's slot (the Go side calls `PostSlotTransition`):
                verify_block_signature + process_block + state-root check;
-    mode=full: `state_transition` including `process_slots`.
+    mode=full: `state_transition` including `process_slots`;
+    mode=payload: `process_execution_payload` alone on the pre-state (the Go side calls the fork's
+               `ProcessExecutionPayload` directly: `ProcessBlock` repeats some of its checks later, in `CheckLimits`).
 * `reset` forgets the pre-state. A `blk` without pre-state, or an unparseable line: `bad-op`.
 
 `err-oracle`: the harness-supplied inputs are inconsistent with what `S` derives (attesting indices, a
@@ -74,6 +76,17 @@ def step (why : Bool) (cur : Option Pre) (line : String) : Option Pre × String 
         | .ok s' => renderM (BlockM.postSlotTransition p.cfg (BlockM.ctxOf p.cfg s') s' b)
         | .error e => renderRes false (.error e)
       (cur, m ++ " | " ++ sp)
+    | some p, .ok b, some "payload" =>
+      -- the execution-payload step alone, on the pre-state (the Go side calls the fork's `ProcessExecutionPayload` directly)
+      match b.execution_payload with
+      | some payload =>
+        -- (the payload's own type limit belongs to the step: an over-long extra_data has no header form)
+        let sp := renderRes why (do
+          require (payload.fields.extra_data.size ≤ p.cfg.MAX_EXTRA_DATA_BYTES) "limits.extra_data"
+          process_execution_payload p.cfg p.state b payload)
+        if why then (cur, sp) else
+        (cur, renderM (BlockM.processExecutionPayload p.cfg p.state b payload) ++ " | " ++ sp)
+      | none => (cur, "bad-op")
     | _, _, _ => (cur, "bad-op")
   | _ => (cur, "bad-op")
 
